@@ -347,6 +347,49 @@ def shrink(fam, case, kind, binary, scratch, budget=40):
 # ------------------------------------------------------------------------------------------------
 # Known findings
 
+def case_patterns(famname, inp):
+    """Which known-finding windows (KNOWN_FINDINGS.json signatures) a case's input falls into.
+    Mirrors Feed.has_inversion / Feed.has_gap_window and Locks.expected_outcomes."""
+    pats = set()
+    if famname == "shut":
+        store_down = inp.get("shutdown") == "cad" or (inp.get("shutdown") == "close_last" and not inp.get("in_mem"))
+        if inp.get("racer") == "timer" and inp.get("point") == "expiry.fire" and store_down:
+            pats.add("timer@expiry.fire+store-down")
+        if inp.get("racer") == "timer" and inp.get("point") != "expiry.fire" and inp.get("shutdown") == "cad":
+            pats.add("timer-inside+cad")
+        if inp.get("racer") == "feedstart" and store_down:
+            pats.add("feedstart@feed.preregister+store-down")
+    elif famname == "sched":
+        acts = inp.get("acts", [])
+        def first(kind, key, val):
+            for i, a in enumerate(acts):
+                if a.get("kind") == kind and a.get(key, 0) == val:
+                    return i
+            return None
+        writers = [a.get("w", 0) for a in acts if a.get("kind") == "commit"]
+        runs = [a.get("f", 0) for a in acts if a.get("kind") == "backfill"]
+        stops = [i for i, a in enumerate(acts) if a.get("kind") == "stop"]
+        inv = gap = False
+        for w1 in writers:
+            c1, p1 = first("commit", "w", w1), first("push", "w", w1)
+            for w2 in writers:
+                c2, p2 = first("commit", "w", w2), first("push", "w", w2)
+                if None not in (c1, c2, p1, p2) and c1 < c2 and p2 < p1:
+                    inv = True
+            if c1 is not None and p1 is not None and any(c1 < i < p1 for i in stops):
+                inv = True
+            s1 = first("snapshot", "w", w1)
+            for f in runs:
+                b, r = first("backfill", "f", f), first("register", "f", f)
+                if None not in (b, r, c1, s1) and b < c1 and s1 < r:
+                    gap = True
+        if inv:
+            pats.update(["inversion", "inversion-or-gap"])
+        if gap:
+            pats.update(["gap", "inversion-or-gap"])
+    return pats
+
+
 def load_known():
     p = os.path.join(VERIF, "KNOWN_FINDINGS.json")
     if not os.path.exists(p):
@@ -501,8 +544,10 @@ def main():
                 for i in bad_strict:
                     if i in bad_chk:
                         continue
+                    pats = case_patterns(famname, all_cases[i].get("input") or {})
                     for kf in known:
-                        if kf.get("status") == "known" and kf.get("property") == prop and kf.get("signature", {}).get("family") == famname:
+                        if (kf.get("status") == "known" and kf.get("property") == prop and kf.get("signature", {}).get("family") == famname
+                                and kf.get("signature", {}).get("pattern") in pats):
                             line = "KNOWN-FINDING: property=%s %s" % (prop, kf["what"])
                             if line not in known_lines:
                                 known_lines.append(line)
